@@ -397,6 +397,25 @@ pub fn run(ctx: &Ctx) {
 
     super::c14_tokens::run(ctx);
 
+    // many metadata items, most keys written several times
+    let sizes = [2usize, 5, 20, 21, 32, 33, 34, 40, 48, 64, 65, 100, 128, 129, 301, 1000];
+    let layouts = ctx.tier.pick(40u64, 400u64);
+    ctx.enumerate(
+        "many-metadata-items",
+        sizes.len() as u64 * layouts,
+        true,
+        |i, acc| {
+            let (n, seed) = (sizes[(i / layouts) as usize], ctx.seed.wrapping_add(i % layouts));
+            acc.cell(if n >= 33 { "many-items:33-or-more" } else { "many-items:fewer" }, true);
+            if i % 53 == 0 {
+                acc.sample("many-items", || format!("{n} metadata items, layout {seed}"));
+            }
+            check_many_items(n, seed)
+        },
+        |i| json!({"many_items": [sizes[(i / layouts) as usize], ctx.seed.wrapping_add(i % layouts)]}),
+        "many-items",
+    );
+
     let n = ctx.tier.pick(60_000u64, 1_500_000u64);
     ctx.random(
         "line-scripts",
@@ -426,7 +445,79 @@ pub fn run(ctx: &Ctx) {
     );
 }
 
+/// A rule text with `n` metadata items over a small pool of keys (so most keys are written several times, each time with
+/// another value; the layout is derived from `seed`): every key holds the value written last, the name and the
+/// description are the ones written, the expression is untouched.
+fn check_many_items(n: usize, seed: u64) -> Verdict {
+    let mut x = seed.wrapping_mul(0x9E37_79B9_7F4A_7C15) ^ (n as u64) ^ 0x5DEECE66D;
+    let mut next = move |m: u64| {
+        x ^= x << 13;
+        x ^= x >> 7;
+        x ^= x << 17;
+        x % m
+    };
+    let pool = 3 + next(12) as usize;
+    let name_at = next(n as u64) as usize;
+    let descr_at = next(n as u64) as usize;
+    let mut want: BTreeMap<String, Value> = BTreeMap::new();
+    let mut text = String::from("// many items\n");
+    let mut description = None;
+    for i in 0..n {
+        if i == name_at {
+            text.push_str("@name: \"the name\";\n");
+        }
+        if i == descr_at {
+            text.push_str(&format!("@description: \"described {i}\";\n"));
+            description = Some(format!("described {i}"));
+            want.insert("description".to_string(), Value::String(format!("described {i}")));
+        }
+        let key = format!("key{:03}", next(pool as u64));
+        let value = match next(4) {
+            0 => (format!("i{i}"), Value::Int(i as i128)),
+            1 => (format!("\"v{i}\""), Value::String(format!("v{i}"))),
+            2 => (format!("[i{i}, i{i}]"), Value::Vec(vec![Value::Int(i as i128), Value::Int(i as i128)])),
+            _ => (format!("{{at: i{i}}}"), crate::pool::map(&[("at", Value::Int(i as i128))])),
+        };
+        text.push_str(&format!("@{key}: {};{}", value.0, if next(3) == 0 { " " } else { "\n" }));
+        want.insert(key, value.1);
+    }
+    text.push_str("a + i1\n");
+    let rule = match catch(|| Rule::parse(&text)) {
+        Err(p) => return Err(Issue::new("rule:many-items:panic", format!("Rule::parse panicked ({p}) on a rule text with {n} metadata items"))),
+        Ok(Err(e)) => return Err(Issue::new("rule:many-items:rejected", format!("a rule text with {n} constant metadata items and a name is rejected: {e:?}; text {text:?}"))),
+        Ok(Ok(r)) => r,
+    };
+    let got: BTreeMap<String, Value> = rule.iter_metadata().map(|(k, v)| (k.to_string(), v.clone())).collect();
+    let wrong: Vec<String> = want
+        .iter()
+        .filter(|(k, v)| !got.get(*k).map(|g| same_value(g, v, true)).unwrap_or(false))
+        .map(|(k, v)| format!("@{k} is {} but the value written last is {}", got.get(k).map(show_value).unwrap_or_else(|| "absent".into()), show_value(v)))
+        .collect();
+    let descr_ok = match &description {
+        Some(d) => rule.description() == Some(d.as_str()),
+        None => true,
+    };
+    if !wrong.is_empty() || got.len() != want.len() || rule.name() != "the name" || !descr_ok || !same_expr(rule.expr(), &Expr::add(Expr::reff("a"), Expr::value(1))) {
+        return Err(Issue::new(
+            "rule:many-items",
+            format!(
+                "a rule text with {n} metadata items over {pool} keys (layout {seed}): name {:?}, description {:?}, {} metadata entries (expected {}), expression {}; {}; text {text:?}",
+                rule.name(),
+                rule.description(),
+                got.len(),
+                want.len(),
+                show_expr(rule.expr()),
+                wrong.join("; ")
+            ),
+        ));
+    }
+    Ok(())
+}
+
 pub fn replay(j: &serde_json::Value) -> Option<Verdict> {
+    if let Some(a) = j.get("many_items").and_then(|a| a.as_array()) {
+        return Some(check_many_items(a.first()?.as_u64()? as usize, a.get(1)?.as_u64()?));
+    }
     if j.get("rule_tokens").is_some() {
         return super::c14_tokens::replay(j);
     }
